@@ -8,11 +8,13 @@ from _util import take, ok, Fail, check, call
 from windpyutils.structures.maps import ImmutIntervalMap
 
 BOUNDS = {
-    "quick": {"endpoints": [0, 1, 2, 3, 4], "intervals": "all 25 (start,end) pairs incl. start>end and single points",
+    "quick": {
+        "falsy_values": "intervals mapped to None / 0 / empty string / False / [] and the empty map: membership and lookup", "endpoints": [0, 1, 2, 3, 4], "intervals": "all 25 (start,end) pairs incl. start>end and single points",
               "maps": "all ordered selections (dict insertion order) of <=4 distinct intervals",
               "probes": "-1, -0.5, 0, 0.5, ... 5.5, 6 (every end, every gap midpoint, outside)",
               "random": {"count": 3000, "intervals": "<=7, float/int ends in 0..20, 15% invalid", "probes": "ends, ends+-0.25, midpoints"}},
-    "thorough": {"endpoints": [0, 1, 2, 3, 4, 5], "intervals": "all 36", "maps": "all ordered selections of <=4 distinct intervals",
+    "thorough": {
+        "falsy_values": "intervals mapped to None / 0 / empty string / False / [] and the empty map: membership and lookup", "endpoints": [0, 1, 2, 3, 4, 5], "intervals": "all 36", "maps": "all ordered selections of <=4 distinct intervals",
                  "probes": "as quick", "random": {"count": 60000, "intervals": "<=9", "probes": "as quick"}},
 }
 RULE = ("Every ordered selection of distinct intervals over the endpoint alphabet is given to the constructor as a dict: "
@@ -29,6 +31,7 @@ def cases(tier, seed):
     for k in range(0, 5):
         for combo in itertools.permutations(ivs, k):
             yield {"kind": "map", "intervals": [list(x) for x in combo]}
+    yield {"kind": "falsy"}
     rng = random.Random(seed)
     b = BOUNDS[tier]["random"]
     for _ in range(b["count"]):
@@ -51,7 +54,33 @@ def cases(tier, seed):
             yield {"kind": "map", "intervals": ivs, "probes": "derived"}
 
 
+def _run_falsy(case):
+    """membership and lookup must not depend on the stored VALUE: None / 0 / '' / False / [] are ordinary values"""
+    try:
+        vals = [None, 0, "", False, [], "x"]
+        mapping = {(10 * i, 10 * i + 5): v for i, v in enumerate(vals)}
+        m = call("intervalmap/falsy/construct", ImmutIntervalMap, mapping)[1]
+        for i, v in enumerate(vals):
+            for k in (10 * i, 10 * i + 3, 10 * i + 5):
+                r = call("intervalmap/falsy/contains", lambda: k in m)[1]
+                check(r is True, "intervalmap/falsy-values/contains", {"key": k, "in": True, "value": repr(v)}, r)
+                g = call("intervalmap/falsy/getitem", lambda: m[k])[1]
+                check(g is v or g == v, "intervalmap/falsy-values/getitem", repr(v), repr(g))
+            r = call("intervalmap/falsy/contains-gap", lambda: (10 * i + 7) in m)[1]
+            check(r is False, "intervalmap/falsy-values/gap", False, r)
+        e = ImmutIntervalMap({})
+        r = call("intervalmap/empty/contains", lambda: 3 in e)[1]
+        check(r is False, "intervalmap/empty/contains", False, r)
+        r = call("intervalmap/empty/getitem", lambda: e[3], allowed=(KeyError,))
+        check(r == ("raised", "KeyError"), "intervalmap/empty/getitem", "KeyError", r)
+        return ok("intervalmap/falsy-values")
+    except Fail as f:
+        return f.result
+
+
 def run_case(case):
+    if case.get("kind") == "falsy":
+        return _run_falsy(case)
     ivs = [tuple(x) for x in case["intervals"]]
     try:
         mapping = {iv: ["val", list(iv)] for iv in ivs}
